@@ -150,7 +150,7 @@ def prop(ctx, case):
     rs1, rs2 = bpl.RefSig(bp), bpl.RefSig(bp2)
     n = len(bp["nodes"])
     changed_nodes = set()
-    inside_meta = {e["node"] % n for e in applied if e["kind"] == "inside-meta"}
+    inside_meta = {e["applied_at"] for e in applied if e["kind"] == "inside-meta"}
     for i in range(n):
         same_sig = rs1.full(i) == rs2.full(i)
         if not same_sig:
@@ -193,7 +193,7 @@ def prop(ctx, case):
         labels.append("generate-mode")
     if len(applied) >= 2:
         labels.append("combined-edits")
-    deep = any((e["node"] % n) in referenced for e in applied)
+    deep = any(e["applied_at"] in referenced for e in applied)
     if deep:
         labels.append("edit-below-root")
     nt = (bool(applied) and deep and bp2 != bp) or "class-variant" in labels
